@@ -381,7 +381,7 @@ pub fn printed_of_token(tok: &str) -> String {
 }
 
 pub fn observe_all(w: &World, h: usize, tid: usize, what: &[String], out: &mut dyn std::io::Write) -> usize {
-    let has = |k: &str| what.is_empty() || what.iter().any(|x| x == k);
+    let has = |k: &str| what.is_empty() || what.iter().any(|x| x == k || x.starts_with(k) && x[k.len()..].starts_with(':'));
     let mut n = 0;
     let pr: Vec<Value> = w.labels.iter().filter(|t| printed_of_token(t) != **t).map(|t| json!([t, printed_of_token(t)])).collect();
     let mut emit = |mut e: Value, out: &mut dyn std::io::Write| {
@@ -441,7 +441,12 @@ pub fn observe_all(w: &World, h: usize, tid: usize, what: &[String], out: &mut d
         }
     }
     if has("inspect") {
-        for v in w.g(h).keys().unwrap_or_default() {
+        // "inspect:<k>" in `what`: only every k-th present vertex (and the first) - the judge computes the reachable set
+        let every: usize = what.iter().find_map(|x| x.strip_prefix("inspect:").and_then(|k| k.parse().ok())).unwrap_or(1);
+        for (idx, v) in w.g(h).keys().unwrap_or_default().into_iter().enumerate() {
+            if idx % every != 0 {
+                continue;
+            }
             let parsed = match w.g(h).inspect(v) {
                 Ok(Ok(t)) => parse_inspect(&t, v),
                 _ => None,
